@@ -312,6 +312,33 @@ def replay(path):
     return EXIT_HARNESS
 
 
+COARSE_KEYS = ("property", "oracle", "op", "target_kind", "pre_state", "write", "fault", "seam", "left", "exc", "site", "sub", "why", "addr", "in_kind", "eval", "wrap", "says", "grew", "gen_type")
+
+
+def survey(prop, n="400"):
+    """Developer tool: run n histories with focus `prop` and tabulate the violation classes no known finding matches."""
+    base = core.base_seed()
+    known = core.load_known()
+    tasks = [{"tid": "h%d" % k, "kind": "gen", "seed": core.run_seed(base, k), "focus": prop} for k in range(int(n))]
+    results, _ = core.run_pool("project", tasks, task_timeout=240.0)
+    table = {}
+    for t in tasks:
+        r = results[t["tid"]]
+        if "harness_error" in r:
+            print("HARNESS", t["seed"], r["harness_error"][:300])
+            continue
+        for v in r["violations"]:
+            if v["property"] != prop:
+                continue
+            k = core.known_for(v["sig"], known)
+            key = ("KNOWN " + k["id"]) if k else json.dumps({kk: v["sig"][kk] for kk in COARSE_KEYS if kk in v["sig"]}, sort_keys=True)
+            e = table.setdefault(key, [0, t["seed"], v["detail"]])
+            e[0] += 1
+    for key, (cnt, seed, detail) in sorted(table.items()):
+        print("%5d seed=%d %s\n        %s" % (cnt, seed, key, detail[:220]))
+    return 0
+
+
 def hunt(focus, seed, substr=""):
     """Developer tool: generate the scenario of (focus, seed), take its first violation whose signature or detail
     contains `substr`, minimise it and write the replay file."""
